@@ -71,6 +71,7 @@ func symSetNow(t time.Time)
 func symUnpinNow()
 func symYield()
 func symIdle()
+func symSchedCanonical(on bool)
 func symPreemptBudget(n int)
 func symWaitUntil(f func() bool)
 func symSameObject(a, b []byte) bool
@@ -199,6 +200,7 @@ func symSetNow(t time.Time)  { zzclock.ZZClockPin(t) }
 func symUnpinNow()           { zzclock.ZZClockUnpin() }
 func symYield()              { zzclock.ZZSchedPoint(); runtime.Gosched() }
 func symPreemptBudget(n int) {}
+func symSchedCanonical(on bool) {}
 func symIdle()               { zzclock.ZZSchedPoint(); runtime.Gosched() }
 func symWaitUntil(f func() bool) {
 	zzclock.ZZSchedPoint()
